@@ -1,6 +1,7 @@
 import Nsq.Model.Line
 import Nsq.Model.AdminGate
 import Nsq.Model.AdminFanout
+import Nsq.Model.AdminProg
 import Nsq.Model.Aggregate
 import Nsq.Model.AggregateWire
 import Nsq.Gen.AdminRoutes
@@ -10,6 +11,7 @@ import Nsq.Model.Fetch
   routes                      → the regenerated route table, `METHOD /path handler;…`
   gate k=v …                  → C17: status, upstream requests, notifications, config write
   view …                      → C18: see `Nsq.Model.AggregateWire`
+  fan kind=k topic=h channel=h node=sym lk=… na=… nd=…  → C17: `AdminProg.runAction`: result, number of errors in the ErrList, requests phase by phase
   getv1 https=b mode=n        → C18: `Fetch.getV1` against a stub behaviour: outcome, requests seen on the plain / TLS port
 -/
 open Nsq Nsq.Line Nsq.Model.AdminGate
@@ -141,6 +143,33 @@ def gate (toks : List String) : String :=
       let cfgw := if obs.contains .configWrite then "1" else "0"
       s!"{status} {reqs} {joinOr (sortStrings notes) ","} {cfgw}"
 
+/-- Group consecutive requests with the same phase key (all GETs of a lookup; POSTs by target kind and path);
+inside a group the order is not fixed (goroutines / order of the producer list): sorted. -/
+def phaseKey (r : Nsq.Model.AdminProg.PReq) : String :=
+  if !r.post then "G" else (if r.target == .lookupd then "PL" else "PN") ++ r.path
+
+def groupPhases : List Nsq.Model.AdminProg.PReq → List (String × List String) → List (String × List String)
+  | [], acc => acc.reverse
+  | r :: rest, [] => groupPhases rest [(phaseKey r, [Nsq.Model.AdminProg.renderReq r])]
+  | r :: rest, (k, g) :: acc =>
+    if phaseKey r == k then groupPhases rest ((k, Nsq.Model.AdminProg.renderReq r :: g) :: acc)
+    else groupPhases rest ((phaseKey r, [Nsq.Model.AdminProg.renderReq r]) :: (k, g) :: acc)
+
+open Nsq.Model.AdminFanout Nsq.Model.AdminProg in
+def fan (toks : List String) : String :=
+  match kindOfString (field toks "kind") with
+  | none => "bad-op"
+  | some k =>
+    let w := parseWorld toks
+    let a : Action := { kind := k, topic := (unhexStr (field toks "topic")).getD "",
+                        channel := (unhexStr (field toks "channel")).getD "", node := field toks "node" }
+    let st := runAction w a
+    let res := resultOf (progOf k) st
+    let seen := st.reqs.filter (fun r => w.lookupds.any (·.addr == r.addr) || w.nsqds.any (·.addr == r.addr))
+    let phases := (groupPhases seen []).map (fun kg => String.intercalate "|" (sortStrings kg.2))
+    let rs := match res.1 with | .none => "none" | .partialErr => "partial" | .full => "full"
+    s!"{rs} errs={res.2} {joinOr phases ";"}"
+
 def getv1 (toks : List String) : String :=
   match (field toks "mode").toNat? with
   | none => "bad-op"
@@ -158,6 +187,7 @@ def stepLine (line : String) : String :=
   | ["routes"] => E7.renderRoutes
   | "gate" :: toks => E7.gate toks
   | "view" :: toks => Nsq.Model.AggregateWire.viewLine toks
+  | "fan" :: toks => E7.fan toks
   | "getv1" :: toks => E7.getv1 toks
   | _ => "bad-op"
 
